@@ -12,7 +12,7 @@ LEVEL = "fault_enumeration"
 RULE = ("Hypothesis generates a scenario (entry kinds; home / $topdir/.Trash/$uid / "
         "$topdir/.Trash-$uid / home-fallback candidates; first use, existing, collision), an errno "
         "from {EACCES, EPERM, EROFS, ENOSPC, EIO, ENAMETOOLONG, EEXIST, ENOENT, EDQUOT, EMFILE, "
-        "ENOTDIR, EBUSY} and a mode {one-shot, persistent for the same (operation, path)}. A "
+        "ENOTDIR, EBUSY} and a mode {one-shot, persistent for the same (operation, path), persistent for the same operation on every path of that directory}. A "
         "fault-free interposed run records ALL N operations (reads included: stat, lstat, access, "
         "listdir, readlink, open ...); then for EVERY k in 1..N the k-th operation is made to "
         "fail with that errno (for close: the descriptor is closed, then the error raised). "
@@ -46,6 +46,9 @@ def strategy_(draw, tier):
         base["state"] = "collision"
     base["errno"] = draw(st.sampled_from(ERRNOS))
     base["persistent"] = draw(st.booleans())
+    # persistent faults hit the same (operation, path) again - or, scope "dir", the same operation
+    # on EVERY path of that directory (a full / read-only / name-limited directory)
+    base["scope"] = draw(st.sampled_from(["path", "dir"]))
     base["pairs"] = draw(st.lists(st.tuples(st.integers(1, 200), st.integers(1, 200),
                                             st.sampled_from(ERRNOS)), max_size=3))
     return base
@@ -99,7 +102,7 @@ def run_case(case):
     n = ref.n_all
     ops = ref.trace
     en = getattr(errno, case["errno"])
-    mode = "persistent" if case["persistent"] else "once"
+    mode = ("persistent_dir" if case.get("scope") == "dir" else "persistent") if case["persistent"] else "once"
     scen = "%s/%s" % (case["target"], case["state"])
     out.classes += ["target:" + case["target"], "state:" + case["state"], "errno:" + case["errno"],
                     "mode:" + mode, "ops:%d" % (n // 20 * 20)]
@@ -107,7 +110,8 @@ def run_case(case):
         out.fail("reference_run_failed", "fault-free run failed: %r" % ref.err[-200:])
         return out
     budget = 20 * n + 2000
-    plans = [({"faults": [{"k": k, "errno": en, "persistent": case["persistent"]}]},
+    plans = [({"faults": [{"k": k, "errno": en, "persistent": case["persistent"],
+                           "scope": case.get("scope", "path")}]},
               ops[k - 1][2] if k - 1 < len(ops) else "?", k) for k in range(1, n + 1)]
     for (k1, k2, e2) in case["pairs"]:
         a, b = sorted((k1 % n + 1, k2 % n + 1))
